@@ -36,6 +36,7 @@ pub use util::process_multiple_changes;
 pub mod verif_hooks {
     pub use super::handlers::handle_changes;
     pub use super::handlers::handle_sync;
+    pub use super::handlers::VERIF_INGEST_LOOPS;
     pub use super::handlers::VERIF_INGEST_STATE;
     pub use super::util::VERIF_FAIL_BATCHES;
 }
